@@ -180,10 +180,16 @@ def _random_records(ctx, count):
     rng = np.random.RandomState(ctx.seed + 1)
     recs = []
     rid = 0
+    layout = 0
     dtypes = [np.uint8, np.int16, np.int32, np.float32, np.float64]
     while len(recs) < count:
         nparts = int(rng.randint(1, 7))
         parts = [int(x) for x in rng.randint(1, 14, size=nparts)]
+        layout += 1
+        if layout % 3 == 2:
+            # MANY short files (9..16): index lists then touch parts with two-digit indices together with low ones
+            nparts = int(rng.randint(9, 17))
+            parts = [int(x) for x in rng.randint(1, 4, size=nparts)]
         n = sum(parts)
         if n * NCH + 1 > 250:
             continue
